@@ -122,6 +122,29 @@ type Gen struct {
 	idna    int // weight of IDNA hosts (0 = never)
 	hostile int // percent of strings that get hostile bytes spliced in
 	long    bool
+	// theme: when set, URL()/Ref() return a member of a small per-plan pool three times out of
+	// four, so that the parties / tasks of one plan run related inputs through the same code paths
+	themeURLs []string
+	themeRefs []string
+}
+
+// setTheme draws the per-plan pools.
+func (g *Gen) setTheme() {
+	n := g.r.Range(2, 4)
+	var us, rs []string
+	kind := g.r.Intn(4)
+	for i := 0; i < n; i++ {
+		switch kind {
+		case 0: // internationalised hosts
+			us = append(us, g.pick(gSchemesSpecial[:5])+"://"+g.pick(gHostsIDNA)+g.pick(gPaths)+g.qf())
+		case 1: // percent-encoding heavy
+			us = append(us, g.pick(gSchemes)+"://"+g.pick(gHostsASCII)+"/"+g.pick([]string{"%zz", "%", "a%2", "%25%", "é%", "%41%zz"})+g.pick(gPaths)+"?"+g.pick([]string{"%", "%zz=%", "a=%2", "q=%25%"}))
+		default:
+			us = append(us, g.URL())
+		}
+		rs = append(rs, g.Ref())
+	}
+	g.themeURLs, g.themeRefs = us, rs
 }
 
 func newGen(r *RNG) *Gen {
@@ -142,6 +165,8 @@ func (g *Gen) host() string {
 			return g.pick(gHostsIDNA)
 		}
 		return g.pick(gHostsASCII)
+	case k < 19 && g.idna > 2:
+		return g.pick(gHostsIDNA)
 	case k < 18:
 		// dotted number soup
 		n := g.r.Range(1, 5)
@@ -234,6 +259,9 @@ func (g *Gen) authority() string {
 
 // URL returns an absolute-looking URL string (it may well be invalid).
 func (g *Gen) URL() string {
+	if len(g.themeURLs) > 0 && g.r.Chance(3, 4) {
+		return g.pick(g.themeURLs)
+	}
 	var s string
 	switch k := g.r.Intn(32); {
 	case k < 10: // special with authority
@@ -292,6 +320,9 @@ func (g *Gen) URL() string {
 
 // Ref returns a reference to be resolved against a base.
 func (g *Gen) Ref() string {
+	if len(g.themeRefs) > 0 && g.r.Chance(3, 4) {
+		return g.pick(g.themeRefs)
+	}
 	var s string
 	switch k := g.r.Intn(24); {
 	case k < 1:
